@@ -24,6 +24,7 @@ def run(ctx: Ctx) -> list[Ob]:
     obs += [o for o in r3.r3c(ctx) if "Evidence" in o.construct]
     obs += r7i.rewiring_order(ctx, ['evidence', 'concatenate'])
     obs += r10.r10g(ctx, only=('TorchEvidenceLayer', 'TorchConstant'))
+    obs += r3.r3k(ctx)
     return obs
 
 
@@ -39,8 +40,9 @@ SPEC = PropSpec(
         "the sub-module itself (evidence layers wrapping differently-configured layers are not folded together). R7i: every comprehension over <circuit>.layer_inputs(<layer>) that re-wires a copied layer in this operator is an order-preserving total map (no `if` filter, not concatenated, not sorted / reversed / made a set): product layers and sum weights are positional. R10g (evaluation purity): no evaluation method (forward, __call__, evaluate, log_partition_function, integrate, sample, ...) of the evidence / constant layers stores anything on self -- a value memoised during evaluation survives in-place updates / re-initialisation / load_state_dict of the parameters it was computed from."
         " R3d tensor-key: the observation tensors evidence introduces are folded like every other tensor -- each attribute the folder copies from the first tensor of a group (shape, requires_grad, dtype) is part of the tensor fold key (an int observation and a float one must not share one folded tensor). R4b/R4x on TorchEvidenceLayer / TorchConstantValueLayer (shape interpretation): forward(batch_size) returns (F, B, Ko) for every size, and its axis 0 is the fold axis and axis 1 the batch axis as element orders, not only as sizes (a repeat + view that re-reads the buffer across axis boundaries hands fold f the value of fold (f*B+b) mod F)."
         " R13e: the value handed to each evidence layer is looked up in the observation mapping by variable id (obs[v] for v over the layer's scope), never taken from obs.values() by position. R7e (element-wise form): outputs appended one by one are appended while iterating <operand>.outputs, not under a membership test inside another traversal."
+        " R3k: every constructor hyper-parameter of a concrete symbolic layer (everything but its params and *_factory alternatives) is a key of its config and round-trips through it -- Layer.copyref(), the copy every operator makes of a layer it does not transform, rebuilds the layer from config (a constant layer that loses log_space is read as linear by the next operator)."
     ),
     not_decided="numerical equality with the conditioned evaluation.",
     run=run,
-    floors={"R4b": 2, "R4x": 1, "R10g": 2, "R7i": 2, "R2a": 3, "R8": 3, "R7e": 2, "R3d": 2},
+    floors={"R3k": 25, "R4b": 2, "R4x": 1, "R10g": 2, "R7i": 2, "R2a": 3, "R8": 3, "R7e": 2, "R3d": 2},
 )
